@@ -28,6 +28,7 @@ def dft2(a, sign, scale):
 def main():
     ap = argparse.ArgumentParser()
     ap.add_argument("--max", type=int, default=6)
+    ap.add_argument("--replay", action="store_true", help="print REPLAY-PASS/REPLAY-FAIL for the definitional checks")
     a = ap.parse_args()
     rng = np.random.default_rng(0)
     n, fails, kinds = 0, [], {}
@@ -37,7 +38,8 @@ def main():
         n += 1
         kinds[name] = kinds.get(name, 0) + 1
         if not np.allclose(x, y, rtol=tol, atol=tol * max(1.0, np.abs(y).max())):
-            fails.append({"what": name, "err": float(np.abs(x - y).max())})
+            fails.append({"what": name, "err": float(np.abs(x - y).max()), "shape": list(np.shape(x)),
+                          "layer": "definition" if name.startswith(("fft2-", "ifft2-")) else "lemma"})
 
     for threads in (1, 4):
         config.NUM_THREADS = threads
@@ -81,7 +83,12 @@ def main():
     print(json.dumps({"what": "DFT contract and lemmas D1-D5 on bldfm.fft_manager (pyfftw), threads 1 and 4",
                       "bound": "all shapes up to %dx%d, both norms" % (a.max + 1, a.max), "evaluations": n, "distinct_nontrivial": n,
                       "per_kind": kinds, "n_failures": len(fails), "failures": fails[:5],
+                      "n_definition_failures": sum(1 for f in fails if f["layer"] == "definition"),
                       "rule": "each evaluation compares one transform / lemma instance with the O(n^2) definition"}))
+    defs = [f for f in fails if f["layer"] == "definition"]
+    if a.replay:
+        print(("REPLAY-FAIL " if defs else "REPLAY-PASS ") + "bldfm.fft_manager.fft2/ifft2 against the O(n^2) DFT sums, shapes up to %dx%d: %s"
+              % (a.max + 1, a.max, json.dumps(defs[:3]) if defs else "all definitional checks hold"))
     sys.exit(3 if fails else 0)
 
 
